@@ -148,7 +148,8 @@ Fixpoint kd_get {A} (d : list (key * A)) (k : key) : option A :=
   match d with [] => None | (k', v) :: r => if key_eqb k k' then Some v else kd_get r k end.
 
 (* root[seg0][seg1]... with Python's indexing rules: lists and tuples by
-   position, dicts by key, nothing else is subscriptable (leaves here are never
+   position (an int; get_path also accepts a string of digits), dicts by key,
+   nothing else is subscriptable (leaves here are never
    crossed).  None = PathAccessError. *)
 Fixpoint lookup_path (defs : table obj) (cur : obj) (p : path) : option oref :=
   match p with
@@ -156,11 +157,14 @@ Fixpoint lookup_path (defs : table obj) (cur : obj) (p : path) : option oref :=
   | seg :: rest =>
       match resolve defs cur with
       | ONode _ k items =>
-          match k, seg with
-          | KList, KI i | KTuple, KI i =>
-              match nth_error items i with Some (_, c) => lookup_path defs c rest | None => None end
-          | KDict, _ => match kd_get items seg with Some c => lookup_path defs c rest | None => None end
-          | _, _ => None
+          match k with
+          | KList | KTuple =>
+              match seg_index seg with
+              | Some i => match nth_error items i with Some (_, c) => lookup_path defs c rest | None => None end
+              | None => None
+              end
+          | KDict => match kd_get items seg with Some c => lookup_path defs c rest | None => None end
+          | _ => None
           end
       | _ => None
       end
@@ -221,11 +225,14 @@ Fixpoint crosses_set (defs : table obj) (cur : obj) (p : path) : bool :=
       match resolve defs cur with
       | ONode _ k items =>
           if is_set k then true
-          else match k, seg with
-               | KList, KI i | KTuple, KI i =>
-                   match nth_error items i with Some (_, c) => crosses_set defs c rest | None => false end
-               | KDict, _ => match kd_get items seg with Some c => crosses_set defs c rest | None => false end
-               | _, _ => false
+          else match k with
+               | KList | KTuple =>
+                   match seg_index seg with
+                   | Some i => match nth_error items i with Some (_, c) => crosses_set defs c rest | None => false end
+                   | None => false
+                   end
+               | KDict => match kd_get items seg with Some c => crosses_set defs c rest | None => false end
+               | _ => false
                end
       | _ => false
       end
